@@ -15,6 +15,10 @@
 //	    => pre=.. rec=.. ret=.. returns=.. later=.. ev=.. replies=.. h=.. hx=.. exp=.. tok=..
 //	    errs: spec;spec…  spec = kind:code:(r|l):(w|p):(i|n)   blocked: a,b,… or -
 //	closedconn <local|remote> <n> => <replies>
+//	kaseq <idleTimeout> <keepAlivePeriod> <keepAliveInterval> <pingSent> <rttSample> <ev,ev,…>
+//	    => pto=<pto> seq=<ka|->:<idle>,…     (one entry per event; deadlines relative to the initial last-packet-received time)
+//	    ev = <kind><dt ns>; kind r = a PING is received, a = a padding-only packet is received, s = an ack-eliciting
+//	    1-RTT packet is sent, n = a 1-RTT packet that is not ack-eliciting is sent, p = a path probe packet is sent
 package closeu
 
 import (
@@ -95,7 +99,7 @@ func genErr(r *vh.Rand) string {
 var callers = []string{"read", "readuni", "write", "accept", "acceptuni", "open", "openuni", "rcvdgram", "senddgram"}
 
 func (rn *runner) GenOp(r *vh.Rand, i int) string {
-	switch r.Pick(25, 8, 25, 36, 6) {
+	switch r.Pick(22, 7, 22, 32, 5, 12) {
 	case 0: // idle helpers on arbitrary field values (also negative and zero)
 		lr := r.Range(-1_000_000_000_000, 1_000_000_000_000)
 		fae := int64(0)
@@ -179,6 +183,37 @@ func (rn *runner) GenOp(r *vh.Rand, i int) string {
 		}
 		return fmt.Sprintf("close %d %d %d %d %s %s %d %d %d", b01(r.Bool()), b01(r.Chance(80)), b01(r.Chance(70)), b01(r.Chance(60)),
 			strings.Join(errs, ";"), bs, b01(r.Chance(70)), qd, pk)
+	case 5: // keep-alive / idle deadlines across a sequence of packets received and sent on a real Conn
+		it := []int64{100, 250, 400, 1000, 3000, 5000, 30000}[r.Intn(7)] * int64(time.Millisecond)
+		if r.Chance(15) {
+			it = dur(r)
+		}
+		kap, kai := int64(0), int64(0)
+		if r.Chance(85) {
+			kap = r.Range(1, 8000) * int64(time.Millisecond)
+			// as negotiated: min(KeepAlivePeriod, idleTimeout/2); sometimes arbitrary
+			kai = kap
+			if it/2 < kai {
+				kai = it / 2
+			}
+			if r.Chance(12) {
+				kai = dur(r)
+			}
+		}
+		rtt := int64(0)
+		if r.Chance(75) {
+			rtt = r.Range(1, 300) * int64(time.Millisecond)
+		}
+		n := 1 + r.Intn(8)
+		evs := make([]string, n)
+		for j := range evs {
+			dt := r.Range(0, 2_000_000_000)
+			if r.Chance(30) {
+				dt = r.Range(0, 50) * int64(time.Millisecond)
+			}
+			evs[j] = fmt.Sprintf("%c%d", "rasnp"[r.Pick(18, 10, 20, 14, 38)], dt)
+		}
+		return fmt.Sprintf("kaseq %d %d %d %d %d %s", it, kap, kai, b01(r.Chance(20)), rtt, strings.Join(evs, ","))
 	default:
 		k := "local"
 		if r.Chance(25) {
@@ -279,6 +314,31 @@ func (rn *runner) Exec(op string) string {
 		}
 		return fmt.Sprintf("pre=%d rec=%s ret=%s returns=%s later=%s ev=%s replies=%d h=%d hx=%d exp=%d tok=%d", b01(out.StillBlockedBefore), out.Recorded, out.Ret,
 			j(out.Returns), j(out.Later), j(out.Events), out.Replies, out.HandlersAfter, out.HandlersExpired, out.ExpiryPTOs, out.TokensAfter)
+	case "kaseq":
+		if len(f) != 7 {
+			return "bad-op"
+		}
+		in := quic.VerifKAIn{IdleTimeout: time.Duration(a(1)), KeepAlivePeriod: time.Duration(a(2)), KeepAliveInterval: time.Duration(a(3)),
+			PingSent: f[4] == "1", RTTSample: time.Duration(a(5))}
+		for _, e := range strings.Split(f[6], ",") {
+			if len(e) < 2 || !strings.ContainsRune("rasnp", rune(e[0])) {
+				return "bad-op"
+			}
+			in.Events = append(in.Events, quic.VerifKAEvent{Kind: e[0], Dt: time.Duration(vh.Atoi64(e[1:]))})
+		}
+		pto, obs := quic.VerifKASeq(in)
+		out := make([]string, len(obs))
+		for i, o := range obs {
+			ka := "-"
+			if o.HasKA {
+				ka = strconv.FormatInt(o.KA, 10)
+			}
+			out[i] = fmt.Sprintf("%s:%d", ka, o.Idle)
+			if o.Err {
+				out[i] += ":E"
+			}
+		}
+		return fmt.Sprintf("pto=%d seq=%s", pto, strings.Join(out, ","))
 	case "closedconn":
 		if len(f) != 3 {
 			return "bad-op"
